@@ -975,6 +975,8 @@ def classify(ctx, cases, rej, stats):
                 spec_bugs.append((c, r))
             continue
         stats[space + "_rejections"] += 1
+        if r.get("partial"):
+            stats["explained_partially"] += 1
         for flag in r["flags"]:
             sig = {"clause": flag}
             if flag == "unexplained":
@@ -1094,7 +1096,7 @@ def execute(ctx, progs, nproc=12):
 
 def new_stats():
     return {"masked_cases": 0, "masked_rejections": 0, "unmasked_cases": 0, "unmasked_rejections": 0,
-            "skipped_not_modelled": 0, "by_clause": {}}
+            "skipped_not_modelled": 0, "explained_partially": 0, "by_clause": {}}
 
 
 def main(ctx):
